@@ -214,12 +214,16 @@ Definition os_join (l : list str) : str :=
   end.
 
 (** generates=[g] in package [pkg] of the project at [root]:
-      path, err := repoSourcePath(pkg, g); components := strings.Split(path, "/");
+      path, err := repoSourcePath(pkg, g);
+      if path == "." || path == "/" { error: the entry names the project root itself, not a file }
+      components := strings.Split(path, "/");
       filepath.Join(proj.root, filepath.Join(components...)) *)
 Definition site_gen (root pkg g : str) : option str :=
   match repo_source_path pkg g with
   | None => None
-  | Some q => Some (os_join [root; os_join (split_on c_slash q)])
+  | Some q =>
+      if str_eqb q [c_dot] || str_eqb q [c_slash] then None
+      else Some (os_join [root; os_join (split_on c_slash q)])
   end.
 
 (** sources=[g]: label, err := sourceLabel(pkg, g); loadSourceFile(label).path =
